@@ -61,7 +61,7 @@ def callable_id(fn) -> tuple:
         return ("flatten",)
     for mod, name in ((manifest_options, "ast_from_string"), (manifest_options, "ast_to_string"),
                       (drm_options, "_drm_selection_from_string"), (drm_options, "_drm_selection_to_string"),
-                      (http_error, "_errors_from_string")):
+                      (http_error, "_errors_from_string"), (http_error, "_errors_to_string")):
         if fn is getattr(mod, name, None):
             return (name,)
     code = getattr(fn, "__code__", None)
@@ -103,12 +103,11 @@ PAIRS = {
     ("string_or_none", "flatten"): ".strOrNone",
     ("default_to_string", "default_to_string"): ".strRaw",
     ("list_without_none_from_string", "join_comma"): ".listJoin",
-    ("list_without_none_from_string", "flatten"): ".listFlat",
     ("_drm_selection_from_string", "_drm_selection_to_string"): ".drmSelection",
     ("unquoted_url_or_none_from_string", "quoted_url_or_none_to_string"): ".quotedUrl",
     ("ast_from_string", "ast_to_string"): ".astDateTime",
     ("datetime_or_none_from_string", "datetime_or_none_to_string"): ".dtOrNone",
-    ("_errors_from_string", "flatten"): ".errorList",
+    ("_errors_from_string", "_errors_to_string"): ".errorList",
 }
 
 
